@@ -58,12 +58,13 @@ func init() {
 
 // Cfg is the replication mode configuration in small integers.
 type Cfg struct {
-	DR      bool `json:"dr"`  // dr-auto-sync (else majority)
-	Key     int  `json:"key"` // index of the label key: 0 "zone", 1 "dc"
-	P       int  `json:"p"`   // primary replicas
-	D       int  `json:"d"`   // dr replicas
-	StoreTO int  `json:"sto"` // wait-store-timeout: 0 = 0s, 1 = 1h
-	AsyncTO int  `json:"ato"` // wait-async-timeout: 0 = 0s, 1 = 1ns, 2 = 1h, 3 = 100ms (real time can be below and above)
+	DR      bool `json:"dr"`           // dr-auto-sync (else majority)
+	Key     int  `json:"key"`          // index of the label key: 0 "zone", 1 "dc"
+	P       int  `json:"p"`            // primary replicas
+	D       int  `json:"d"`            // dr replicas
+	StoreTO int  `json:"sto"`          // wait-store-timeout: 0 = 0s, 1 = 1h
+	Sp      int  `json:"sp,omitempty"` // spelling of the mode name (every one passes config.NormalizeReplicationMode), 0 = canonical
+	AsyncTO int  `json:"ato"`          // wait-async-timeout: 0 = 0s, 1 = 1ns, 2 = 1h, 3 = 100ms (real time can be below and above)
 }
 
 // StoreSpec gives, per label key, which value the store carries:
@@ -88,6 +89,9 @@ type StoreSpec struct {
 //	tick    A+1 ticks; P = number of GetReplicationStatus calls made from another goroutine each time the manager
 //	        is inside the file replication or the storage save of a transition (also for config)
 //	config  A=0 toggle mode | 1 toggle label key | 2 replicas B,C | 3 store timeout B | 4 async timeout B | 5 same config again
+//	        Sp = spelling of the mode name the update carries (0 canonical; "dr_auto_sync", "DR-AUTO-SYNC", "MAJORITY", ...)
+//	racetick            one tick; right after its region scan (the manager holds its read lock) a config update (A,B,C,Sp
+//	                    as for config) is started on another goroutine and gets the manager's lock before the tick can switch
 //	failsave            the next storage write fails
 //	failrepl A=n        the next n file replications fail
 //	member  A=member id (UpdateMemberWaitAsyncTime: the pd member reports that it is in sync with the leader now)
@@ -104,6 +108,7 @@ type Op struct {
 	ID   int    `json:"id,omitempty"`
 	Skip []int  `json:"skip,omitempty"`
 	P    int    `json:"p,omitempty"`
+	Sp   int    `json:"sp,omitempty"`
 }
 
 // Case is one generated history.
@@ -159,6 +164,7 @@ func genCfg(t *rapid.T) Cfg {
 	c.P, c.D = x[0], x[1]
 	c.StoreTO = w(t, "storeTO", 5, 95)
 	c.AsyncTO = w(t, "asyncTO", 84, 6, 8, 2)
+	c.Sp = w(t, "spelling", 91, 3, 3, 3)
 	return c
 }
 
@@ -194,6 +200,14 @@ func genConfigOp(t *rapid.T) Op {
 		op.B = rapid.IntRange(0, 3).Draw(t, "ato")
 	}
 	op.P = w(t, "probes", 40, 35, 15, 10)
+	op.Sp = w(t, "spelling", 76, 8, 8, 8)
+	return op
+}
+
+func genRaceTick(t *rapid.T) Op {
+	op := genConfigOp(t)
+	op.K, op.P = "racetick", 0
+	op.A = w(t, "rkind", 15, 45, 15, 5, 10, 10) // mostly the label key
 	return op
 }
 
@@ -263,7 +277,7 @@ func genFlap(t *rapid.T, losing int) []Op {
 
 // report phase: most regions report the current state id, ticks in between
 func genReport(t *rapid.T) []Op {
-	switch w(t, "report", 30, 28, 10, 5, 5, 4, 4, 6, 3, 1, 3, 2, 3, 2) {
+	switch w(t, "report", 30, 28, 10, 5, 5, 4, 4, 6, 3, 1, 3, 2, 3, 2, 4) {
 	case 0:
 		return []Op{{K: "report", A: 0, B: 1000, St: 2, ID: 0, Skip: genSkips(t)}}
 	case 1:
@@ -300,8 +314,10 @@ func genReport(t *rapid.T) []Op {
 		return []Op{{K: "failrepl", A: rapid.IntRange(1, 3).Draw(t, "n")}}
 	case 12:
 		return []Op{genConfigOp(t)}
-	default:
+	case 13:
 		return []Op{genMemberStateOp(t)}
+	default:
+		return []Op{genRaceTick(t)}
 	}
 }
 
@@ -398,7 +414,12 @@ func genCase(t *rapid.T) Case {
 			if w(t, "closingHeal", 15, 85) == 1 {
 				add(Op{K: "heal", A: 1})
 			}
-			add(Op{K: "report", A: 0, B: 1000, St: 2, ID: 0}, genTick(t))
+			if w(t, "closingRace", 88, 12) == 1 {
+				// the tick that finds the recovery complete races a config update
+				add(Op{K: "report", A: 0, B: 1000, St: 2, ID: 0}, genRaceTick(t))
+			} else {
+				add(Op{K: "report", A: 0, B: 1000, St: 2, ID: 0}, genTick(t))
+			}
 		}
 	}
 	return c
@@ -774,6 +795,7 @@ func (r *recRepl) ReplicateFileToAllMembers(_ context.Context, name string, data
 type fixture struct {
 	cancel context.CancelFunc
 	cl     *mockcluster.Cluster
+	hc     *hookCluster // what the manager sees
 	kv     *faultkv.KV
 	stg    *core.Storage // the manager's storage
 	ostg   *core.Storage // the oracle's view of the backend
@@ -787,10 +809,30 @@ var asyncTimeouts = []time.Duration{0, time.Nanosecond, time.Hour, 100 * time.Mi
 
 func dur(d time.Duration) typeutil.Duration { return typeutil.Duration{Duration: d} }
 
+var (
+	drSpellings  = []string{"dr-auto-sync", "dr_auto_sync", "DR-AUTO-SYNC", "Dr_Auto-Sync"}
+	majSpellings = []string{"majority", "MAJORITY", "Majority", "mAJORITY"}
+)
+
+// cfgFor spells the mode name as the case says - unless that trigger class is a known finding.
+func (r *runner) cfgFor(c Cfg) config.ReplicationModeConfig {
+	if c.Sp%4 != 0 && vkit.Known(keyModeName) {
+		if !r.excludedSpelling {
+			r.excludedSpelling = true
+			r.info.Exclude(keyModeName)
+		}
+		c.Sp = 0
+	}
+	if c.Sp%4 != 0 {
+		r.class("mode-name-in-another-spelling")
+	}
+	return toConfig(c)
+}
+
 func toConfig(c Cfg) config.ReplicationModeConfig {
-	mode := "majority"
+	mode := majSpellings[((c.Sp%4)+4)%4]
 	if c.DR {
-		mode = "dr-auto-sync"
+		mode = drSpellings[((c.Sp%4)+4)%4]
 	}
 	return config.ReplicationModeConfig{ReplicationMode: mode, DRAutoSync: config.DRAutoSyncReplicationConfig{
 		LabelKey:         keyNames[c.Key],
@@ -966,6 +1008,8 @@ type runner struct {
 	failedSaveAtTransition  bool
 	failedReplAtTransition  bool
 	refusedGap, refusedPart bool
+	excludedSpelling        bool
+	excludedRace            bool
 }
 
 func (r *runner) class(c string) { r.classes[c] = true }
@@ -1140,6 +1184,86 @@ func (r *runner) track(from, to status) {
 	}
 }
 
+// configTarget resolves a config op against the current configuration.
+func (r *runner) configTarget(op Op, desc string) (Cfg, opCtx) {
+	m := r.m
+	nc := m.cfg
+	switch op.A {
+	case 0:
+		nc.DR = !nc.DR
+	case 1:
+		nc.Key = 1 - nc.Key
+	case 2:
+		if op.B >= 1 && op.C >= 1 {
+			nc.P, nc.D = op.B, op.C
+		}
+	case 3:
+		nc.StoreTO = op.B % 2
+	case 4:
+		nc.AsyncTO = op.B % 4
+	}
+	nc.Sp = op.Sp
+	return nc, opCtx{kind: "config", cfg: nc, desc: desc,
+		labelChanged: m.cfg.DR && nc.DR && m.cfg.Key != nc.Key,
+		toDR:         !m.cfg.DR && nc.DR}
+}
+
+// finishConfig judges what an UpdateConfig call did and installs the new configuration in the model.
+func (r *runner) finishConfig(cx opCtx, nc Cfg, atts []attempt, uerr error) error {
+	m := r.m
+	rejected := false
+	for _, a := range atts {
+		if a.saveFailed {
+			rejected = true
+		}
+	}
+	if err := r.judge(cx, atts); err != nil {
+		return err
+	}
+	if rejected != (uerr != nil) {
+		return fmt.Errorf("%s: UpdateConfig returned %v although persisting the new state failed=%v", cx.desc, uerr, rejected)
+	}
+	if rejected {
+		r.class("config-update-rejected-by-failed-save")
+		return nil
+	}
+	m.cfg = nc
+	if cx.toDR {
+		ok := false
+		for _, a := range atts {
+			ok = ok || (a.saveTried && !a.saveFailed)
+		}
+		if !ok {
+			return fmt.Errorf("%s: dr-auto-sync was switched on without entering a new state: the status %v left from before the majority period would be served", cx.desc, m.cur)
+		}
+		r.class("mode-switch-to-dr")
+		r.wasSync, r.sawAsync = false, false
+	}
+	return nil
+}
+
+// tickBookkeeping records what a scan at this tick could have seen under the current id.
+func (r *runner) tickBookkeeping() {
+	m := r.m
+	if m.cfg.DR && m.cur.valid && m.cur.state == "sync_recover" {
+		if m.covID != m.cur.id {
+			m.covID, m.cov = m.cur.id, iset{}
+		}
+		m.snapshot(m.cur.id, &m.cov)
+		m.cov.normalise()
+		r.recoverTicks++
+		gap, stale := m.hasGap(), m.hasStale(m.cur.id)
+		r.gapOnWay = r.gapOnWay || gap
+		r.staleOnWay = r.staleOnWay || stale
+		if gap && m.allPresentReported(m.cur.id) {
+			r.class("sync-refused-all-reported-but-gap")
+		}
+		if !gap && !m.allPresentReported(m.cur.id) {
+			r.class("sync-refused-reports-missing")
+		}
+	}
+}
+
 // installed is the tuple the model says a store must be served right now.
 func (r *runner) installed() obs {
 	m := r.m
@@ -1276,7 +1400,7 @@ func (r *runner) newManager(ctx opCtx, failLoads bool) error {
 	r.f.pr.m = nil // nobody can ask a manager that is still being constructed
 	r.f.pr.begin(0)
 	r.m.bornBefore, r.m.members = time.Now(), map[int][2]time.Time{}
-	mgr, err := replication.NewReplicationModeManager(toConfig(r.m.cfg), r.f.stg, r.f.cl, r.f.rep)
+	mgr, err := replication.NewReplicationModeManager(r.cfgFor(r.m.cfg), r.f.stg, r.f.hc, r.f.rep)
 	r.f.kv.FailLoads = false
 	atts, cerr := r.collect()
 	if cerr != nil {
@@ -1322,6 +1446,7 @@ func runCase(c Case) (vkit.Info, error) {
 	defer cancel()
 	f := &fixture{cancel: cancel}
 	f.cl = mockcluster.NewCluster(ctx, config.NewTestOptions())
+	f.hc = &hookCluster{Cluster: f.cl}
 	base := kv.NewMemoryKV()
 	f.kv = faultkv.New(base)
 	f.kv.KeepLog = true
@@ -1550,29 +1675,12 @@ func runCase(c Case) (vkit.Info, error) {
 				return info, err
 			}
 		case "config":
-			nc := m.cfg
-			switch op.A {
-			case 0:
-				nc.DR = !nc.DR
-			case 1:
-				nc.Key = 1 - nc.Key
-			case 2:
-				if op.B >= 1 && op.C >= 1 {
-					nc.P, nc.D = op.B, op.C
-				}
-			case 3:
-				nc.StoreTO = op.B % 2
-			case 4:
-				nc.AsyncTO = op.B % 4
-			}
-			cx := opCtx{kind: "config", cfg: nc, desc: desc,
-				labelChanged: m.cfg.DR && nc.DR && m.cfg.Key != nc.Key,
-				toDR:         !m.cfg.DR && nc.DR}
+			nc, cx := r.configTarget(op, desc)
 			f.kv.TakeLog()
 			f.rep.offers = nil
 			before := r.installed()
 			f.pr.begin(op.P)
-			uerr := f.m.UpdateConfig(toConfig(nc))
+			uerr := f.m.UpdateConfig(r.cfgFor(nc))
 			cx.end = time.Now()
 			batches := f.pr.join()
 			if f.pr.timedOut {
@@ -1583,40 +1691,95 @@ func runCase(c Case) (vkit.Info, error) {
 			if err != nil {
 				return info, fmt.Errorf("%s: %v", desc, err)
 			}
-			rejected := false
-			for _, a := range atts {
-				if a.saveFailed {
-					rejected = true
-				}
-			}
-			if err := r.judge(cx, atts); err != nil {
+			if err := r.finishConfig(cx, nc, atts, uerr); err != nil {
 				return info, err
 			}
 			if err := r.checkReads(desc, before, atts, nc, batches); err != nil {
 				return info, err
 			}
-			if rejected != (uerr != nil) {
-				return info, fmt.Errorf("%s: UpdateConfig returned %v although persisting the new state failed=%v", desc, uerr, rejected)
-			}
-			if !rejected {
-				m.cfg = nc
-				if cx.toDR {
-					ok := false
-					for _, a := range atts {
-						ok = ok || (a.saveTried && !a.saveFailed)
-					}
-					if !ok {
-						return info, fmt.Errorf("%s: dr-auto-sync was switched on without entering a new state: the status %v left from before the majority period would be served", desc, m.cur)
-					}
-					r.class("mode-switch-to-dr")
-					r.wasSync, r.sawAsync = false, false
-				}
-			} else {
-				r.class("config-update-rejected-by-failed-save")
-			}
 			if err := r.after(cx); err != nil {
 				return info, err
 			}
+		case "racetick":
+			nc, cx := r.configTarget(op, desc)
+			tcx := opCtx{kind: "tick", cfg: m.cfg, desc: desc + " (the tick)"}
+			// known finding: a tick that declares sync overwrites a state-changing update that got the lock after
+			// the tick's scan. Excluded: in that constellation the update is made after the tick instead.
+			excluded := false
+			if (cx.labelChanged || (m.cfg.DR && !nc.DR)) && vkit.Known(keySyncSwitch) &&
+				m.cfg.DR && m.cur.valid && m.cur.state == "sync_recover" {
+				cov := &iset{}
+				if m.covID == m.cur.id {
+					cov = m.cov.clone()
+				}
+				m.snapshot(m.cur.id, cov)
+				if cov.firstHole() < 0 {
+					excluded = true
+					if !r.excludedRace {
+						r.excludedRace = true
+						info.Exclude(keySyncSwitch)
+					}
+				}
+			}
+			f.kv.TakeLog()
+			f.rep.offers = nil
+			f.pr.begin(0)
+			var uerr error
+			var done chan struct{}
+			n1, n2, fired, raced := 0, 0, false, true
+			f.hc.onScan = nil
+			if !excluded {
+				f.hc.onScan = func() {
+					fired, n1 = true, len(f.rep.offers)
+					done, raced = raceAfterScan(f.m, func() {
+						uerr = f.m.UpdateConfig(r.cfgFor(nc))
+						n2 = len(f.rep.offers)
+					})
+				}
+			}
+			f.m.VerifTickDR()
+			f.hc.onScan = nil
+			if fired {
+				select {
+				case <-done:
+				case <-time.After(probeWait):
+					raced = false
+				}
+				if !raced {
+					info.Inconclusive = true
+					return info, nil
+				}
+				r.class("config-update-raced-a-tick-after-its-scan")
+			} else {
+				// the tick did not scan (or the class is excluded): the update simply follows the tick
+				n1 = len(f.rep.offers)
+				uerr = f.m.UpdateConfig(r.cfgFor(nc))
+				n2 = len(f.rep.offers)
+			}
+			f.pr.join()
+			tcx.end, cx.end = time.Now(), time.Now()
+			atts, err := r.collect()
+			if err != nil {
+				return info, fmt.Errorf("%s: %v", desc, err)
+			}
+			if n1 > len(atts) || n2 > len(atts) || n1 > n2 {
+				return info, fmt.Errorf("%s: %d statuses offered to the members but %d transition attempts in the logs", desc, n2, len(atts))
+			}
+			if err := r.judge(tcx, atts[:n1]); err != nil {
+				return info, err
+			}
+			if err := r.finishConfig(cx, nc, atts[n1:n2], uerr); err != nil {
+				return info, err
+			}
+			tcx.cfg = m.cfg
+			tcx.desc = desc + " (the tick, after the concurrent update got the lock)"
+			if err := r.judge(tcx, atts[n2:]); err != nil {
+				return info, err
+			}
+			if err := r.after(tcx); err != nil {
+				return info, err
+			}
+			r.tickBookkeeping()
 		case "tick":
 			for k := 0; k <= op.A; k++ {
 				cx := opCtx{kind: "tick", cfg: m.cfg, desc: fmt.Sprintf("%s (tick %d)", desc, k)}
@@ -1670,24 +1833,7 @@ func runCase(c Case) (vkit.Info, error) {
 				if err := r.after(cx); err != nil {
 					return info, err
 				}
-				if m.cfg.DR && m.cur.valid && m.cur.state == "sync_recover" {
-					// what a scan at this tick could have seen under the current id
-					if m.covID != m.cur.id {
-						m.covID, m.cov = m.cur.id, iset{}
-					}
-					m.snapshot(m.cur.id, &m.cov)
-					m.cov.normalise()
-					r.recoverTicks++
-					gap, stale := m.hasGap(), m.hasStale(m.cur.id)
-					r.gapOnWay = r.gapOnWay || gap
-					r.staleOnWay = r.staleOnWay || stale
-					if gap && m.allPresentReported(m.cur.id) {
-						r.class("sync-refused-all-reported-but-gap")
-					}
-					if !gap && !m.allPresentReported(m.cur.id) {
-						r.class("sync-refused-reports-missing")
-					}
-				}
+				r.tickBookkeeping()
 			}
 		default:
 			return info, fmt.Errorf("malformed case: op %q", op.K)
